@@ -58,5 +58,22 @@ func ruleSizedFamilies(c *core.Ctx, poss []string, floor int) {
 			runMemberOpt(c, mb, rules, 4000, true, checkRoot)
 		}
 	}
+	if floor <= 30 {
+		// a definition with bounded integers that is used on its own AND as an allOf branch: the type chosen and the checks kept
+		// for the second visit of the same schema nodes must be the ones of the first
+		ib := func(kws ...string) *fam.Spec { return &fam.Spec{Kind: "integer", Kw: kws, IntBounds: true} }
+		shared := objSpec(&fam.Prop{Label: "n", Spec: ib("minimum", "maximum")}, &fam.Prop{Label: "m", Spec: ib("maximum")})
+		shared.Ref = "$defs"
+		comp := &fam.Spec{Kind: "object", AllOf: []*fam.Spec{shared, objSpec(&fam.Prop{Label: "x", Spec: &fam.Spec{Kind: "string"}})}}
+		mb := member{name: "sized integers in a definition used on its own and as an allOf branch", cfg: cfg,
+			root: objSpec(&fam.Prop{Label: "plain", Spec: shared}, &fam.Prop{Label: "comp", Spec: comp})}
+		runMemberOpt(c, mb, rules, 8000, true, func(w *fam.World, fm *fam.FileModel) []fam.Issue {
+			is := checkRoot(w, fm)
+			for i := range is {
+				is[i].Construct = "[second visit of a definition's integers through allOf] " + is[i].Construct
+			}
+			return is
+		})
+	}
 	c.Floor("sized families", c.Counts["members"], floor, "sized-integer family members")
 }
